@@ -3,21 +3,378 @@ package main
 import (
 	"bytes"
 	"context"
+	"encoding/binary"
+	"encoding/json"
 	"fmt"
+	"math/big"
 	"os"
 	"os/exec"
+	"path/filepath"
+	"sort"
 	"strings"
+	"text/template"
 	"time"
+
+	"golang.org/x/tools/go/ssa"
 )
 
-// tryReplay attempts to reproduce a failed obligation on the real code.
-// It returns whether the bad behaviour was reproduced and a description.
-func tryReplay(w *World, f failure, prop string) (bool, string) {
-	tmpl := findReplayTemplate(f.res.Obl)
-	if tmpl == nil {
-		return false, "no replay template for this obligation kind; the verifier's model is given above"
+// Replay: a failed obligation comes with a solver model. For functions that
+// have a replay template (/verif/replay/*.tmpl) the model's inputs and the
+// values the peer "sent" (results of Conn.Read* / io.ReadFull calls on the
+// failing path) are spliced into an in-package Go test that runs the real
+// code through `go test -overlay`, without writing into /repo.
+
+type replayTmpl struct {
+	File   string
+	Func   string
+	PkgDir string
+	Kinds  []string
+	Inputs [][2]string // name, spec expression over the root's parameters (entry state)
+	Body   string
+}
+
+func loadReplayTemplates() []*replayTmpl {
+	files, _ := filepath.Glob(filepath.Join(verifDir(), "replay", "*.tmpl"))
+	sort.Strings(files)
+	var out []*replayTmpl
+	for _, f := range files {
+		data, err := os.ReadFile(f)
+		if err != nil {
+			continue
+		}
+		t := &replayTmpl{File: f}
+		var body []string
+		for _, line := range strings.Split(string(data), "\n") {
+			if strings.HasPrefix(line, "//replay:") {
+				w, rest := splitWord(strings.TrimPrefix(line, "//replay:"))
+				switch w {
+				case "func":
+					t.Func = rest
+				case "pkgdir":
+					t.PkgDir = rest
+				case "kinds":
+					t.Kinds = strings.Split(strings.ReplaceAll(rest, " ", ""), ",")
+				case "input":
+					parts := strings.SplitN(rest, "=", 2)
+					if len(parts) == 2 {
+						t.Inputs = append(t.Inputs, [2]string{strings.TrimSpace(parts[0]), strings.TrimSpace(parts[1])})
+					}
+				}
+				continue
+			}
+			body = append(body, line)
+		}
+		t.Body = strings.Join(body, "\n")
+		out = append(out, t)
 	}
-	return tmpl.run(w, f, prop)
+	return out
+}
+
+type wireEvent struct {
+	Name string
+	Vals []string
+	Lens []string
+}
+
+func tryReplay(w *World, f failure, prop string) (bool, string) {
+	if f.res.Status != "failed" || f.run.X == nil {
+		return false, "no model (the solver did not return sat); nothing to replay"
+	}
+	var tmpl *replayTmpl
+	for _, t := range loadReplayTemplates() {
+		if t.Func != f.run.Func {
+			continue
+		}
+		if len(t.Kinds) > 0 && !contains(t.Kinds, f.res.Obl.Kind) {
+			continue
+		}
+		tmpl = t
+		break
+	}
+	if tmpl == nil {
+		return false, "no replay template for " + f.run.Func + " / " + f.res.Obl.Kind + "; the verifier's model is given above"
+	}
+	x := f.run.X
+	fn := w.Func(f.run.Func)
+	// watch terms: template inputs, then events
+	var watch []*Term
+	type inRef struct {
+		name string
+		idx  int
+	}
+	var ins []inRef
+	env := x.rootEnv
+	for _, in := range tmpl.Inputs {
+		e, err := ParseSpecExpr(in[1])
+		if err != nil {
+			return false, fmt.Sprintf("replay template %s: input %s: %v", tmpl.File, in[0], err)
+		}
+		var t *Term
+		if err := safeEval(func() { t = env.term(env.eval(e)) }); err != nil {
+			return false, fmt.Sprintf("replay template %s: input %s: %v", tmpl.File, in[0], err)
+		}
+		ins = append(ins, inRef{in[0], len(watch)})
+		watch = append(watch, t)
+	}
+	type evRef struct {
+		ev    callEvent
+		guard int
+		vals  []int
+		lens  []int
+	}
+	var evs []evRef
+	for _, ev := range x.events {
+		r := evRef{ev: ev, guard: len(watch)}
+		watch = append(watch, ev.Guard)
+		for _, v := range ev.Vals {
+			if v.Sort == IntSort || v.Sort == BoolSort {
+				r.vals = append(r.vals, len(watch))
+				watch = append(watch, v)
+			} else {
+				r.vals = append(r.vals, -1)
+			}
+		}
+		for _, l := range ev.Lens {
+			r.lens = append(r.lens, len(watch))
+			watch = append(watch, l)
+		}
+		evs = append(evs, r)
+	}
+	script := x.buildQueryWatch(f.res.Obl, watch)
+	sr := Solve(script, "replay_"+f.res.Obl.Name, 20*time.Second)
+	if sr.Status != "sat" {
+		return false, "could not re-derive the model with watch terms (" + sr.Status + ")"
+	}
+	vals := parseGetValue(sr.Raw)
+	get := func(i int) string {
+		if i < 0 {
+			return ""
+		}
+		return vals[fmt.Sprintf("w!%d", i)]
+	}
+	data := map[string]interface{}{}
+	inMap := map[string]string{}
+	for _, in := range ins {
+		inMap[in.name] = get(in.idx)
+	}
+	var wire []wireEvent
+	for _, r := range evs {
+		if get(r.guard) != "true" {
+			continue
+		}
+		we := wireEvent{Name: r.ev.Name}
+		for _, i := range r.vals {
+			we.Vals = append(we.Vals, get(i))
+		}
+		for _, i := range r.lens {
+			we.Lens = append(we.Lens, get(i))
+		}
+		wire = append(wire, we)
+	}
+	data["In"] = inMap
+	data["Wire"] = goBytes(wireBytes(wire))
+	data["Events"] = wire
+	data["Obligation"] = f.res.Obl.Name
+	tt, err := template.New("replay").Parse(tmpl.Body)
+	if err != nil {
+		return false, fmt.Sprintf("replay template %s: %v", tmpl.File, err)
+	}
+	var src bytes.Buffer
+	if err := tt.Execute(&src, data); err != nil {
+		return false, fmt.Sprintf("replay template %s: %v", tmpl.File, err)
+	}
+	_ = fn
+	ok, out := runOverlayTest(w.RepoDir, tmpl.PkgDir, src.String(), "TestVerifReplay")
+	evj, _ := json.Marshal(wire)
+	desc := fmt.Sprintf("template: %s\ninputs: %v\npeer events on the failing path: %s\n--- go test (overlay, real code) ---\n%s", tmpl.File, inMap, evj, truncateStr(out, 4000))
+	desc += "\n--- generated test ---\n" + src.String()
+	return ok, desc
+}
+
+// runOverlayTest injects src as an extra _test.go file of pkgDir and runs it.
+func runOverlayTest(repo, pkgDir, src, run string) (bool, string) {
+	dir := scratch()
+	testFile := filepath.Join(dir, fmt.Sprintf("zz_verif_replay_%d_test.go", time.Now().UnixNano()))
+	if err := os.WriteFile(testFile, []byte(src), 0o644); err != nil {
+		return false, err.Error()
+	}
+	defer os.Remove(testFile)
+	ov := map[string]map[string]string{"Replace": {filepath.Join(repo, pkgDir, "zz_verif_replay_test.go"): testFile}}
+	ovData, _ := json.Marshal(ov)
+	ovFile := testFile + ".overlay.json"
+	os.WriteFile(ovFile, ovData, 0o644)
+	defer os.Remove(ovFile)
+	ctx, cancel := context.WithTimeout(context.Background(), 180*time.Second)
+	defer cancel()
+	cmd := exec.CommandContext(ctx, "go", "test", "-v", "-overlay", ovFile, "-vet=off", "-count=1", "-timeout", "60s", "-run", run, "./"+pkgDir+"/")
+	cmd.Dir = repo
+	cmd.Env = append(os.Environ(), "GOFLAGS=-mod=mod", "GOPROXY=off")
+	var out bytes.Buffer
+	cmd.Stdout = &out
+	cmd.Stderr = &out
+	cmd.Run()
+	return strings.Contains(out.String(), "VERIF-REPLAY: reproduced"), out.String()
+}
+
+func (x *X) buildQueryWatch(o *Obligation, watch []*Term) string {
+	B := x.B
+	goal := B.And(o.Guard, B.Not(o.Cond))
+	memo := map[*Term]map[string]bool{}
+	qmemo := map[*Term]bool{}
+	want := map[string]bool{}
+	for k := range symbolsOf(goal, memo) {
+		want[k] = true
+	}
+	for _, wt := range watch {
+		for k := range symbolsOf(wt, memo) {
+			want[k] = true
+		}
+	}
+	var asserts []*Term
+	type cand struct {
+		t    *Term
+		syms map[string]bool
+		used bool
+	}
+	var cands []*cand
+	for _, a := range x.assums[:o.NAssum] {
+		t := B.Implies(a.Guard, a.Fact)
+		if t.IsTrue() || hasQuant(t, qmemo) {
+			continue
+		}
+		cands = append(cands, &cand{t: t, syms: symbolsOf(t, memo)})
+	}
+	for changed := true; changed; {
+		changed = false
+		for _, c := range cands {
+			if c.used {
+				continue
+			}
+			for s := range c.syms {
+				if want[s] {
+					c.used = true
+					changed = true
+					for s2 := range c.syms {
+						want[s2] = true
+					}
+					break
+				}
+			}
+		}
+	}
+	for _, c := range cands {
+		if c.used {
+			asserts = append(asserts, c.t)
+		}
+	}
+	asserts = append(asserts, goal)
+	return B.ScriptWatch(asserts, "", false, watch)
+}
+
+func parseGetValue(out string) map[string]string {
+	m := map[string]string{}
+	idx := strings.Index(out, "((")
+	if idx < 0 {
+		return m
+	}
+	toks := tokenize(out[idx:])
+	pos := 0
+	var parse func() interface{}
+	parse = func() interface{} {
+		if pos >= len(toks) {
+			return nil
+		}
+		t := toks[pos]
+		pos++
+		if t == "(" {
+			var l []interface{}
+			for pos < len(toks) && toks[pos] != ")" {
+				l = append(l, parse())
+			}
+			pos++
+			return l
+		}
+		return t
+	}
+	top, _ := parse().([]interface{})
+	for _, e := range top {
+		p, ok := e.([]interface{})
+		if !ok || len(p) != 2 {
+			continue
+		}
+		name, _ := p[0].(string)
+		m[name] = sexprString(p[1])
+	}
+	return m
+}
+
+// wireBytes serialises the peer events the way the real peer would have
+// sent them; an event whose error result is set ends the stream.
+func wireBytes(evs []wireEvent) []byte {
+	var buf bytes.Buffer
+	num := func(s string) *big.Int {
+		v, ok := new(big.Int).SetString(s, 10)
+		if !ok {
+			return big.NewInt(0)
+		}
+		return v
+	}
+	for _, ev := range evs {
+		// the last two leaves of the results are the error interface (tag, data)
+		errTag := "0"
+		n := len(ev.Vals)
+		if n >= 2 {
+			errTag = ev.Vals[n-2]
+		}
+		failed := errTag != "0" && errTag != ""
+		switch {
+		case strings.HasSuffix(ev.Name, ".ReadInt32"):
+			if failed {
+				return buf.Bytes()
+			}
+			binary.Write(&buf, binary.LittleEndian, int32(num(ev.Vals[0]).Int64()))
+		case strings.HasSuffix(ev.Name, ".ReadByte"):
+			if failed {
+				return buf.Bytes()
+			}
+			buf.WriteByte(byte(num(ev.Vals[0]).Int64()))
+		case strings.HasSuffix(ev.Name, ".ReadInt64"):
+			if failed {
+				return buf.Bytes()
+			}
+			v := num(ev.Vals[0]).Int64()
+			if v >= 0 && v <= 0x7fffffff {
+				binary.Write(&buf, binary.LittleEndian, int32(v))
+			} else {
+				binary.Write(&buf, binary.LittleEndian, int32(-1))
+				binary.Write(&buf, binary.LittleEndian, v)
+			}
+		case ev.Name == "io.ReadFull":
+			if failed {
+				return buf.Bytes()
+			}
+			if len(ev.Lens) > 0 {
+				n := num(ev.Lens[0]).Int64()
+				if n > 0 && n < 1<<20 {
+					buf.Write(make([]byte, n))
+				}
+			}
+		}
+	}
+	return buf.Bytes()
+}
+
+func goBytes(b []byte) string {
+	var sb strings.Builder
+	sb.WriteString("[]byte{")
+	for i, c := range b {
+		if i > 0 {
+			sb.WriteString(", ")
+		}
+		fmt.Fprintf(&sb, "0x%02x", c)
+	}
+	sb.WriteString("}")
+	return sb.String()
 }
 
 func runBounded(b BoundedSpec) map[string]interface{} {
@@ -44,18 +401,4 @@ func runBounded(b BoundedSpec) map[string]interface{} {
 	return res
 }
 
-type replayTemplate struct {
-	match func(o *Obligation) bool
-	run   func(w *World, f failure, prop string) (bool, string)
-}
-
-var replayTemplates []*replayTemplate
-
-func findReplayTemplate(o *Obligation) *replayTemplate {
-	for _, t := range replayTemplates {
-		if t.match(o) {
-			return t
-		}
-	}
-	return nil
-}
+var _ = ssa.NewProgram
